@@ -28,7 +28,7 @@ class Contract:
     def __init__(self, target, self_cls=None, props=(), params=None, result=None, requires=None,
                  ensures=None, raises=None, must_raise=None, modifies=None, loops=None, inline=False,
                  pure=False, raise_frame_empty=False, decreases=None, note="", axioms=None,
-                 verify=True, name=None, fields=None, result_fn=None, max_paths=400, primary=True, call_checks=None):
+                 verify=True, name=None, fields=None, result_fn=None, max_paths=400, primary=True, call_checks=None, defaults=None):
         self.target = target
         self.self_cls = self_cls
         self.props = list(props)
@@ -51,6 +51,7 @@ class Contract:
         self.fields = fields or {}  # field-type overrides for this unit
         self.result_fn = result_fn  # fn(ctx) -> SV : deterministic result (for pure spec'd functions)
         self.max_paths = max_paths
+        self.defaults = defaults or {}  # default values (SV) of interface method parameters
         self.call_checks = call_checks or {}  # callee short name -> fn(ctx, argmap) -> z3 Bool, obligation at each call site
         self.primary = primary  # caller-facing contract (non-primary: extra verification unit / case)
 
